@@ -397,6 +397,94 @@ pub fn check_pure(case: &Pure) -> Result<CaseInfo, Fail> {
     Ok(info)
 }
 
+/// Coverage-guided campaign (thorough tier): the libFuzzer target `fuzz/fuzz_targets/wire.rs`
+/// carries the same oracles as the pure cases. Returns (executions, jobs) or the path of a
+/// crashing input.
+fn fuzz_campaign(seed: u64, secs: u64, jobs: usize) -> Result<(u64, usize), Result<std::path::PathBuf, String>> {
+    use std::process::Command;
+    let root = std::path::Path::new(env!("CARGO_MANIFEST_DIR")).parent().unwrap().to_path_buf();
+    let fuzz_dir = root.join("fuzz");
+    let build = Command::new("cargo")
+        .args(["+nightly", "fuzz", "build", "--fuzz-dir"])
+        .arg(&fuzz_dir)
+        .arg("wire")
+        .env("CARGO_NET_OFFLINE", "true")
+        .output()
+        .map_err(|e| Err(format!("cargo fuzz build: {e}")))?;
+    if !build.status.success() {
+        return Err(Err(format!(
+            "cargo fuzz build failed: {}",
+            String::from_utf8_lossy(&build.stderr).lines().rev().take(5).collect::<Vec<_>>().join(" | ")
+        )));
+    }
+    let bin = fuzz_dir.join("target/x86_64-unknown-linux-gnu/release/wire");
+    let work = crate::client::scratch_root().join("fuzz");
+    let _ = std::fs::remove_dir_all(&work);
+    let mut children = vec![];
+    for j in 0..jobs {
+        let corpus = work.join(format!("corpus{j}"));
+        let arts = work.join(format!("artifacts{j}"));
+        std::fs::create_dir_all(&corpus).map_err(|e| Err(e.to_string()))?;
+        std::fs::create_dir_all(&arts).map_err(|e| Err(e.to_string()))?;
+        // a fresh corpus copy per job: half of the jobs start from the seed inputs, half from nothing
+        if j % 2 == 0 {
+            if let Ok(rd) = std::fs::read_dir(fuzz_dir.join("seeds/wire")) {
+                for e in rd.flatten() {
+                    let _ = std::fs::copy(e.path(), corpus.join(e.file_name()));
+                }
+            }
+        }
+        let child = Command::new(&bin)
+            .arg(&corpus)
+            .arg(format!("-dict={}", fuzz_dir.join("wire.dict").display()))
+            .arg(format!("-max_total_time={secs}"))
+            .arg("-len_control=0")
+            .arg("-max_len=4096")
+            .arg(format!("-seed={}", seed.wrapping_mul(1000).wrapping_add(j as u64 + 1)))
+            .arg(format!("-artifact_prefix={}/", arts.display()))
+            .arg("-print_final_stats=1")
+            .stdout(std::process::Stdio::null())
+            .stderr(std::process::Stdio::piped())
+            .spawn()
+            .map_err(|e| Err(format!("spawn fuzzer: {e}")))?;
+        children.push((child, arts));
+    }
+    let mut execs = 0u64;
+    let mut crash: Option<std::path::PathBuf> = None;
+    for (child, arts) in children {
+        let out = child.wait_with_output().map_err(|e| Err(e.to_string()))?;
+        let err = String::from_utf8_lossy(&out.stderr);
+        for l in err.lines() {
+            if let Some(n) = l.strip_prefix("stat::number_of_executed_units:") {
+                execs += n.trim().parse::<u64>().unwrap_or(0);
+            }
+        }
+        if !out.status.success() {
+            if let Ok(rd) = std::fs::read_dir(&arts) {
+                for e in rd.flatten() {
+                    let name = e.file_name().to_string_lossy().to_string();
+                    if name.starts_with("crash-") {
+                        let dst = verif_root().join("replays").join("C12");
+                        let _ = std::fs::create_dir_all(&dst);
+                        let to = dst.join(format!("fuzz-wire-{name}.bin"));
+                        let _ = std::fs::copy(e.path(), &to);
+                        println!(
+                            "libFuzzer target `wire` failed: {}",
+                            err.lines().filter(|l| l.contains("panicked") || l.contains("assert")).take(2).collect::<Vec<_>>().join(" | ")
+                        );
+                        crash = Some(to);
+                    }
+                }
+            }
+        }
+    }
+    let _ = std::fs::remove_dir_all(&work);
+    match crash {
+        Some(p) => Err(Ok(p)),
+        None => Ok((execs, jobs)),
+    }
+}
+
 pub fn run(tier: Tier, seed: u64, replay: Option<&std::path::Path>) -> i32 {
     let started = Instant::now();
     let prof_api = profile("C12");
@@ -486,18 +574,36 @@ pub fn run(tier: Tier, seed: u64, replay: Option<&std::path::Path>) -> i32 {
             }
         }
     }
+    let mut fuzz_extra = json!({"libfuzzer": "not run in the quick tier"});
+    if tier == Tier::Thorough && out.failure.is_none() && out.infra.is_none() {
+        match fuzz_campaign(seed, 120, 4) {
+            Ok((execs, jobs)) => {
+                fuzz_extra = json!({"libfuzzer_target": "wire", "jobs": jobs, "seconds_per_job": 120, "executions": execs, "crashes": 0});
+                out.stats.evaluations += execs;
+                *out.stats.labels.entry("libfuzzer-executions".into()).or_insert(0) += execs;
+            }
+            Err(Ok(path)) => {
+                println!("VIOLATION property=C12 replay={}", path.display());
+                return 1;
+            }
+            Err(Err(e)) => {
+                eprintln!("INFRASTRUCTURE: {e}");
+                return 2;
+            }
+        }
+    }
     let report = Report {
         prop: "C12",
         tier,
         seed,
         level: "exploration",
-        rule: "pure cases: every TTL value through to_query/from_query, serde JSON and parse_ttl against the documented spellings; strings one edit away from the TTL grammar against a harness-owned grammar; every ReadOptions value through to_query_string -> from_query field by field; option strings with one malformed value must be rejected; Frame values (any topic, ids, sha1/256/512 and multi-hash integrity strings, meta with floats by bit pattern, huge integers, escapes, nesting up to 130) value->JSON->value, JSON decoded field by field, and hand-built import JSON -> value. End-to-end cases: histories of appends (Store API and xs-meta header) and imports (POST /import) with the same meta domain, then get / reads / reopen against the reference model. Non-trivial = TTL with N > 2^32 or K > 2; options with >= 3 fields set; frame with meta depth >= 3 or a non-integer number; end-to-end case with an import or a reopen. Distinct by value hash.",
+        rule: "pure cases: every TTL value through to_query/from_query, serde JSON and parse_ttl against the documented spellings; strings one edit away from the TTL grammar against a harness-owned grammar; every ReadOptions value through to_query_string -> from_query field by field; option strings with one malformed value must be rejected; Frame values (any topic, ids, sha1/256/512 and multi-hash integrity strings, meta with floats by bit pattern, huge integers, escapes, nesting up to 130) value->JSON->value, JSON decoded field by field, and hand-built import JSON -> value. End-to-end cases: histories of appends (Store API and xs-meta header) and imports (POST /import) with the same meta domain, then get / reads / reopen against the reference model. Non-trivial = TTL with N > 2^32 or K > 2; options with >= 3 fields set; frame with meta depth >= 3 or a non-integer number; end-to-end case with an import or a reopen. Distinct by value hash. Thorough tier additionally: libFuzzer target `wire` (bytes tried as TTL spelling, query string and frame JSON with the same oracles inside the target), 4 jobs x 120 s from seed inputs / from nothing with a dictionary of the option alphabet.",
         assumptions: vec![
             "whether a meta nested deeper than 100 levels is accepted is left to xs; accepted ones must read back".into(),
             "TTL strings containing '+' are not compared (Rust's integer parser accepts a leading '+', the docs do not say)".into(),
             "option strings never repeat a key".into(),
         ],
-        extra: json!({"pure_cases": n_pure, "end_to_end_cases": n_hist}),
+        extra: json!({"pure_cases": n_pure, "end_to_end_cases": n_hist, "coverage_guided": fuzz_extra}),
     };
     finish(&report, out, started, |_| "C12".to_string())
 }
